@@ -80,7 +80,7 @@ package mqtt
 //@        evArg[<-chan struct{}]("select", 0, 0) == evRet[<-chan struct{}]("(*BaseClient).Done", 0, 0) && evRet[error]("(*BaseClient).Err", 0, 0) != nil &&
 //@        evCount("callback:context.CancelFunc") >= 1
 //@   loop 1 iter[C09] remembers_success: initialized_next == (initialized || connected)
-//@   loop 1 iter[C09] stop_requests_watched: evArg[chan struct{}]("select", evCount("select")-1, 2) == c.disconnected &&
+//@   loop 1 iter[C09] stop_requests_watched: evRet[int]("select", evCount("select")-1, 0) >= 0 && evArg[chan struct{}]("select", evCount("select")-1, 2) == c.disconnected &&
 //@        evArg[<-chan struct{}]("select", evCount("select")-1, 1) == evRet[<-chan struct{}]("context.Context.Done", evCount("context.Context.Done")-1, 0) &&
 //@        evArg[context.Context]("context.Context.Done", evCount("context.Context.Done")-1, 0) == ctx
 //@   ensures[C09] loop_exit_signalled: closed(c.done)
@@ -110,7 +110,7 @@ package mqtt
 //@   let pi0 time.Duration = c.options.PingInterval
 //@   loop 1 invariant connOptions != nil
 //@   ensures[C09] one_loop: evCount("go:(*reconnectClient).Connect$1") <= 1 && (result1 == nil ==> evCount("go:(*reconnectClient).Connect$1") == 1)
-//@   ensures[C09] first_connection_or_cancel: evCount("go:(*reconnectClient).Connect$1") == 1 ==> evCount("select") == 1 &&
+//@   ensures[C09] first_connection_or_cancel: evCount("go:(*reconnectClient).Connect$1") == 1 ==> evCount("select") == 1 && evRet[int]("select", 0, 0) >= 0 &&
 //@        (evRet[int]("select", 0, 0) == 0 ==> result1 == nil) &&
 //@        (evRet[int]("select", 0, 0) == 1 ==> result0 == false && evArg[<-chan struct{}]("select", 0, 1) == evRet[<-chan struct{}]("context.Context.Done", 0, 0) && evArg[context.Context]("context.Context.Done", 0, 0) == ctx)
 //@   ensures[C13] ping_interval_default: evCount("go:(*reconnectClient).Connect$1") == 1 && pi0 != 0 ==> c.options.PingInterval == pi0
@@ -124,7 +124,7 @@ package mqtt
 //@   requires c != nil && c.RetryClient != nil && ctx != nil && c.disconnected != nil && !closed(c.disconnected)
 //@   ensures[C09] stop_requested_first: closed(c.disconnected) && evCount("close") == 1 && evArg[chan struct{}]("close", 0, 0) == c.disconnected && evIndex("close", 0) == 0
 //@   ensures[C09] client_disconnected: evCount("(*RetryClient).Disconnect") == 1 && evArg[*RetryClient]("(*RetryClient).Disconnect", 0, 0) == c.RetryClient
-//@   ensures[C09] waits_for_loop_exit: evCount("select") == 1 && evArg[chan struct{}]("select", 0, 0) == c.done &&
+//@   ensures[C09] waits_for_loop_exit: evCount("select") == 1 && evRet[int]("select", 0, 0) >= 0 && evArg[chan struct{}]("select", 0, 0) == c.done &&
 //@        evArg[<-chan struct{}]("select", 0, 1) == evRet[<-chan struct{}]("context.Context.Done", 0, 0) && evArg[context.Context]("context.Context.Done", 0, 0) == ctx &&
 //@        (evRet[int]("select", 0, 0) == 0 ==> result == evRet[error]("(*RetryClient).Disconnect", 0, 0)) &&
 //@        (evRet[int]("select", 0, 0) == 1 && asError(result) != nil ==> asError(result).Err == evRet[error]("context.Context.Err", 0, 0) && evArg[context.Context]("context.Context.Err", 0, 0) == ctx)
